@@ -273,3 +273,56 @@ PROPS["C11"] = dict(
                                "relates them through three algebraic axioms, cross-checked bounded against CPython"],
     extra=[lemma_parse_colon_names],
 )
+
+
+# ----------------------------------------------------------------------
+# C16: repeated plain-pickle round trips of a wrapper (induction over the number of round trips), over the contracts of
+# __reduce__ / _reconstruct_wrapper / _wrap_non_picklable_objects and the trusted pickle protocol + T-deps
+def lemma_wrapper_roundtrips(repo, tier, seed):
+    import time
+    import z3
+    t0 = time.time()
+    I = z3.IntSort()
+    B = z3.BoolSort()
+    callable_ = z3.Function("callable", I, B)
+    eqv = z3.Function("behaves_like", I, I, B)
+    dumps = z3.Function("cp_dumps", I, I)
+    loads = z3.Function("cp_loads", I, I)
+    o0, o, o1, x, y, z = z3.Ints("o0 o o1 x y z")
+    cw, cw1 = z3.Bools("cw cw1")
+    # T-deps, instantiated where used: loads(dumps(o)) behaves like o; behaves_like is an equivalence preserving callable()
+    ax = [eqv(loads(dumps(o)), o), eqv(o0, o0),
+          z3.Implies(z3.And(eqv(loads(dumps(o)), o), eqv(o, o0)), eqv(loads(dumps(o)), o0)),
+          z3.Implies(eqv(loads(dumps(o)), o0), callable_(loads(dumps(o))) == callable_(o0))]
+    # contracts: _wrap(o0, keep) -> (cw == callable(o0), obj == o0); __reduce__ with keep -> _reconstruct_wrapper(dumps(obj), True)
+    # -> wrapper (cw1 == callable(loads(dumps(obj))), obj1 == loads(dumps(obj)), keep)
+    inv = lambda cw_, obj_: z3.And(eqv(obj_, o0), cw_ == callable_(o0))
+    goals = {
+        "roundtrip/base-wrapper-of-o-forwards-like-o": z3.Implies(cw == callable_(o0), inv(cw, o0)),
+        "roundtrip/step-keep-wrapper-stays-a-faithful-wrapper":
+            z3.Implies(z3.And(inv(cw, o), cw1 == callable_(loads(dumps(o))), o1 == loads(dumps(o))), inv(cw1, o1)),
+        "roundtrip/unwrapped-arrives-as-an-object-behaving-like-o":
+            z3.Implies(z3.And(inv(cw, o), o1 == loads(dumps(o))), eqv(o1, o0)),
+    }
+    out = []
+    for gname, g in goals.items():
+        s = z3.Solver()
+        s.add(ax)
+        s.add(z3.Not(g))
+        r = s.check()
+        out.append({"name": f"loky.cloudpickle_wrapper:<lemma>:{gname}", "status": "unsat" if r == z3.unsat else ("sat" if r == z3.sat else "unknown"),
+                    "backend": "z3-inproc", "secs": time.time() - t0, "kind": "lemma", "function": "loky.cloudpickle_wrapper",
+                    "path": ["induction on the number of plain-pickle round trips"], "model": str(s.model()) if r == z3.sat else ""})
+    return out
+
+
+PROPS["C16"] = dict(
+    proved="_wrap_non_picklable_objects returns a callable wrapper iff the object is callable, holding that very object and flag; __reduce__ reduces to "
+           "(loads, dumps(obj)) without keep_wrapper and to (_reconstruct_wrapper, dumps(obj), True) with it; _reconstruct_wrapper re-wraps the unpickled object "
+           "with the same rule; attribute reads and calls are forwarded unchanged (one call, same arguments, exceptions propagate); wrapping a class yields a "
+           "class named like it whose instances hold an instance built from the constructor arguments; inductive lemma for repeated round trips.",
+    not_covered="cloudpickle itself (T-deps: loads(dumps(o)) behaves like o); _wrap_objects_when_needed (the automatic wrapping heuristics) is not under contract.",
+    assumptions=["A-user"],
+    abstractions=COMMON_ABS + ["objects are opaque ids with uninterpreted callable / attribute / application functions"],
+    extra=[lemma_wrapper_roundtrips],
+)
